@@ -309,6 +309,38 @@ PROPS['C10'] = dict(
                   exit=dict(cases=150, shards=16, scale=3, min_nontrivial=1000)),
 )
 
+# ---- modes added after the first full version of each check (appended to the level texts of MANIFEST.json)
+_SESS = (' A share of the cases are model-based UCI sessions (harness/ucisession.h): generated command sequences for the in-process Uci::loop '
+         '(position new / same line again / extended line, moves, ucinewgame, go, printboard, staticeval, perft, hash, setoption book) with a reference '
+         'model of the session state; only this property\'s own oracle is switched on.')
+_ZM = (' The last five of the sixteen shards run with Zobrist keys that carry entropy only inside a 24-bit window (guarded hook), so any table that '
+       'indexes or verifies with part of the key sees every pair of positions collide.')
+_EXTRA = {
+    'C01': _SESS + _ZM,
+    'C02': _SESS,
+    'C03': (' Two UCI-level relations on the in-process Uci::loop: hash/printboard unchanged across perft and go; and perft transparency (two sessions that '
+            'differ only in a `perft k` between position and go must print the same final info line and bestmove; the game ends in a shuffle and the search is '
+            'restricted to the repeating move, so the result depends on the game history).'),
+    'C04': _SESS,
+    'C05': _SESS + _ZM,
+    'C07': (' A third of the games add look-ahead with take-back on the live object (make a move, mates and stalemates first, ask, unmake, ask the parent again); '
+            '1 case in 160 is a game of 810-900 plies (beyond the 800-entry history buffer); roots from the special-move mate pool.'),
+    'C08': _SESS + (' A fifth of the cases search positions from a per-process pool of mates in one whose mating move is a special move and the only kind of mate '
+                    'available (en passant incl. through the captured pawn\'s square, promotions incl. knight, castling, discovered and double check), built by oracle-filtered sampling.'),
+    'C09': _SESS,
+    'C14': _SESS + _ZM + ' Histories also contain earlier positions minus all pieces of some kinds of one side (stale per-square members).',
+    'C15': ' One case in six is a live walk on one Position object (make, classify, unmake, classify again, null-move twin); roots also come from the special-move mate pool.',
+    'C17': ' One case in six is a live walk on one Position object (make, print/parse, unmake, print/parse again, null-move twin).',
+    'C18': ' Neighbour positions are hashed back to back (same occupancy with another piece kind, sibling promotions).',
+    'C19': _SESS,
+    'C10': (' Exit half (prop C10exit): every case constructs its own Uci as main() does, parks the search thread at a generated schedule point and ends the session by '
+            'quit / end of input / stop+quit. Valgrind half: recorded sessions are fed to the real executable (engine/main.cpp, g++ -O1 -g) under valgrind memcheck '
+            'for the uninitialised-value clause.'),
+}
+for _p, _t in _EXTRA.items():
+    PROPS[_p]['level_text'] = PROPS[_p]['level_text'] + _t
+# every rapidcheck-driven shard starts with one full-size case (words from the shard seed) before rapidcheck's empty first tape
+
 HOOK_COMMITS = ['2ee17ca', '895e75c', '46141b5']
 
 # Zobrist entropy windows (24 bits each) used by the last shards of C01 / C05 / C14
